@@ -61,7 +61,7 @@ def handledJson : Option (List Req) → Json
   | none => Json.null
   | some rs => Json.arr (rs.map reqJson).toArray
 
-def e2eCall (T : Tables) (policy : List Row) (creds : List (String × String)) (c : Json) : Json :=
+def e2eCall (T : Tables) (policy : List Row) (creds : List (String × String)) (c : Json) (denyAll : Bool := false) : Json :=
   match str? c "m", (val? c "req").bind reqOf with
   | some full, some req =>
     let elems := match arr? c "elems" with
@@ -70,7 +70,10 @@ def e2eCall (T : Tables) (policy : List Row) (creds : List (String × String)) (
     let md : MD := match str? c "hdr" with
       | some h => [("authorization", [h])]
       | none => []
-    let p : Caller := { validate := basicValidate creds, enforce := casbinEnforce policy, md := md, req := req, elems := elems }
+    -- denyAll: the enforcer could not be built (policy or model unreadable): `Enforce` fails for
+    -- every subject, "root" included (the root bypass lives in the model file's matcher)
+    let p : Caller := { validate := basicValidate creds, enforce := (if denyAll then (fun _ _ _ => false) else casbinEnforce policy),
+                        md := md, req := req, elems := elems }
     let tr := if str? c "tr" == some "gateway" then Transport.gateway else Transport.grpc
     match T.methods.find? (fun m => m.full == full) with
     | none => Json.mkObj [("err", "no-such-method"), ("handled", Json.null)]
@@ -95,7 +98,10 @@ def step (T : Tables) (j : Json) : Json :=
     | _, _ => Drv.bad "proxy: cannot decode"
   | some "e2e" =>
     match triples j "policy", pairs j "creds", arr? j "calls" with
-    | some pol, some creds, some calls => Json.mkObj [("res", Json.arr ((calls.map (e2eCall T pol creds))).toArray)]
+    | some pol, some creds, some calls =>
+      -- "fault": the policy could not be loaded; no enforcer, no grant (not: no check)
+      let fault := (str? j "fault").isSome
+      Json.mkObj [("res", Json.arr ((calls.map (fun c => e2eCall T pol creds c fault))).toArray)]
     | _, _, _ => Drv.bad "e2e: cannot decode"
   | _ => Drv.bad "unknown op"
 
